@@ -299,9 +299,12 @@ func (w *World) runTCaller(ci int) {
 		case "restart":
 			if ts.down[op.Addr] {
 				w.Net.fault(FRestart)
+				// the down interval ends (conservatively) when the restart begins: the new
+				// listener accepts connections before startServer returns
+				ev := tEvent{simrt.Seq(), simrt.Now(), "restart", op.Addr}
 				w.startServer(op.Addr)
 				ts.down[op.Addr] = false
-				ts.events = append(ts.events, tEvent{simrt.Seq(), simrt.Now(), "restart", op.Addr})
+				ts.events = append(ts.events, ev)
 			}
 		case "sopen", "swrite", "sread", "sclose":
 			w.tStreamOp(t, op)
